@@ -194,4 +194,47 @@ def Reg.run {α} (r : Reg α) (evs : List (RegEv α)) : Reg α := evs.foldl Reg.
 def Reg.received {α} (r : Reg α) (i : Nat) : List α :=
   (r.delivered.filter (fun p => p.1 == i)).map (·.2)
 
+/-! ## the handler table with its keys (`serial.DistributorQueue._handlers`)
+
+`Reg` above knows subscribers by identity.  The code keeps them in a `dict`
+under a key — `hash(handler)`, which for these objects is derived from `id()` —
+`add_handler`: `self._handlers[hash(handler)] = handler`, `del_handler`:
+`self._handlers.pop(hash(handler), None)`, `distribute`: every value of the
+dict in insertion order.  `KReg` makes the keys explicit: `key i` is the key of
+subscriber object `i`. -/
+
+/-- an insertion-ordered `dict` key ↦ subscriber -/
+abbrev HTable := List (Nat × Nat)
+
+/-- `d[k] = v`: an existing key keeps its place, a new one goes to the end -/
+def HTable.set (d : HTable) (k v : Nat) : HTable :=
+  if d.any (·.1 == k) then d.map (fun p => if p.1 == k then (k, v) else p) else d ++ [(k, v)]
+
+/-- `d.pop(k, None)` -/
+def HTable.pop (d : HTable) (k : Nat) : HTable := d.filter (·.1 != k)
+
+structure KReg (α : Type) where
+  table : HTable
+  delivered : List (Nat × α)
+  deriving Repr
+
+def KReg.init {α} : KReg α := ⟨[], []⟩
+
+def KReg.step {α} (key : Nat → Nat) (r : KReg α) : RegEv α → KReg α
+  | .sub i => { r with table := r.table.set (key i) i }
+  | .unsub i => { r with table := r.table.pop (key i) }
+  | .emit x => { r with delivered := r.delivered ++ r.table.map (fun p => (p.2, x)) }
+
+def KReg.run {α} (key : Nat → Nat) (r : KReg α) (evs : List (RegEv α)) : KReg α :=
+  evs.foldl (KReg.step key) r
+
+/-- the subscribers `distribute` hands an item to, in order -/
+def KReg.subs {α} (r : KReg α) : List Nat := r.table.map (·.2)
+
+/-- the keys in use -/
+def KReg.keys {α} (r : KReg α) : List Nat := r.table.map (·.1)
+
+def KReg.received {α} (r : KReg α) (i : Nat) : List α :=
+  (r.delivered.filter (fun p => p.1 == i)).map (·.2)
+
 end DaliVerif.BusWatch
